@@ -1,5 +1,5 @@
 SPECIFICATION MCSpec
 CONSTANTS
-  Codes <- AllCodes
+  Codes <- NegCodes
   Mutant = "zerofill"
 INVARIANTS RoundTrip8 Canonical8 FloatRoute WidthLemmas IndexRoundTrip FrameLaw RowFrameLaw
